@@ -46,7 +46,7 @@ TRUSTED = ['memory model: sequentially consistent at the granularity of one load
            'index type int16 of _tsc_scatter: grids wider than 32767 cells are out of scope']
 ASSUMPTIONS = ['positions in [0, BoxSize] along the partition axis, offset between 0 and one cell',
                'tsc_parallel_eq_serial: on the other two axes the particles lie in the fault-free domain of the C06 kernel '
-               '(grid coordinate >= -g + 3/2); the schedules of the partition itself are covered by C17 partition_stable',
+               '(Mass.InDomain, Props/C06.lean); the schedules of the partition itself are covered by C17 partition_stable',
                'nthread >= 1 after resolving nthread < 0 to the number of cores; nthread <= NUMBA_NUM_THREADS']
 
 
